@@ -394,12 +394,22 @@ def fallChecks (cfg : Option Config) (blind blind' : Bool) (good' : Option (Nat 
     else []
   | _, _ => []
 
+/-- "… and the bundled release otherwise": whatever a query reports — after a fall-back in particular — is the
+    selection, and it validates at that moment (size on disk; with a key, the signature over the file's bytes). -/
+def intactChecks (env : Env) (cfg : Option Config) (op : Op) (post : View) : Checks :=
+  match cfg, reportedNext op post with
+  | some c, some n =>
+    [ ((match post.ps.next with | some m => m.number = n && post.valid env c.key m | none => false),
+        s!"C03: the query reported patch {n}, which is not an intact selection at that moment (the bundled release was due)") ]
+  | _, _ => []
+
 def mon03 : Monitor G03 where
   init := {}
   next env g op pre post := g.next env op pre post
   checks env g op pre post :=
     artChecks g.good (g.next env op pre post).good op post ++
-    fallChecks g.cfg g.blind (g.next env op pre post).blind (g.next env op pre post).good op pre post
+    fallChecks g.cfg g.blind (g.next env op pre post).blind (g.next env op pre post).good op pre post ++
+    intactChecks env g.cfg op post
 
 /-! #### C09: an installed patch stays selected until something happens to that patch -/
 
